@@ -214,6 +214,9 @@ pub fn c05(out: &mut Out, tier: &str, rng: &mut Rng) {
             generated_stream(out, p, rng.next_u64(), n, [1.0, 1e-3, 100.0, 1.0][i % 4]);
         }
     }
+    if tier == "thorough" || std::env::var("AVGH_LONG").is_ok() {
+        generated_stream(out, 0.5, rng.next_u64(), (1 << 27) + (1 << 18), 1.0);
+    }
     // "consequently": a strictly decreasing stream (new minima keep arriving) is tracked as well as the reversed,
     // increasing one. What carries this claim is the theorem `n0_eq_one` (marker 0 never moves) together with the
     // bit-exact comparison with the P-square specification below (`O psq`); the numerical comparison here is only a
@@ -240,7 +243,7 @@ pub fn c05(out: &mut Out, tier: &str, rng: &mut Rng) {
 }
 
 fn p_grid(rng: &mut Rng, n: usize, nrand: usize) -> Vec<f64> {
-    let mut g = vec![0.0, 1.0];
+    let mut g = vec![0.0, 1.0, -0.0];
     for k in 0..=n {
         let b = k as f64 / n as f64;
         g.push(b);
@@ -353,6 +356,9 @@ pub fn c15(out: &mut Out, tier: &str, rng: &mut Rng) {
     // very long streams (beyond 2^20 and 2^21 observations), regenerated by the driver
     for (i, &n) in [(1u64 << 20) + 5, (1 << 21) + 3].iter().enumerate() {
         generated_stream(out, [0.3, 0.95][i], rng.next_u64(), n, [1.0, 1e6][i]);
+    }
+    if tier == "thorough" || std::env::var("AVGH_LONG").is_ok() {
+        generated_stream(out, 0.9, rng.next_u64(), (1 << 26) + (1 << 16), 1.0);
     }
     // random p, random short and medium streams
     for _ in 0..(if tier == "thorough" { 400 } else { 80 }) {
